@@ -97,7 +97,7 @@ func (s *sender) SendSMSCode(areaCode, phone string) (string, error) {
 }
 
 func (s *sender) VerifySMSCode(areaCode, phone, code, hash string) error {
-	var key = fmt.Sprintf("%s%s", areaCode, phone)
+	var key = fmt.Sprintf("%s-%s", areaCode, phone)
 	var c = s.fetchCache(key, false)
 	if c == nil {
 		return ErrVerifyCodeNotExist
